@@ -47,7 +47,7 @@ def tag(v):
 
 class C20(vlib.Check):
     id = "C20"
-    props_modules = ["E3fpVerif.Props.C20"]
+    props_modules = ["E3fpVerif.Props.C20", "E3fpVerif.Props.C20State"]
     gen_items = ["defaults"]
     rule = ("(a) coherence: the defaults table regenerated from /repo (123 declarations over 9 sources) is decided by the kernel, "
             "and cross-checked against live inspect.signature / argparse values; (b) round trip: seeded option dictionaries "
@@ -86,6 +86,22 @@ class C20(vlib.Check):
                 case["fill"] = True
                 self.count("roundtrip:after-deriving-from-default_params")
             yield case
+        # histories on the parameter state (Model/ConfigState): variants derived from the live `default_params` object, files read
+        # with and without fill_defaults, get_default_value - the packaged file is what a read falls back to, whatever came before
+        for _ in range(25 if self.tier == "quick" else 500):
+            ops = []
+            for _k in range(rng.randint(2, 6)):
+                c = rng.choice(["derive", "read", "read", "get_default"])
+                sec = rng.choice(SECTIONS)
+                if c == "derive":
+                    ops.append({"o": "derive", "sec": sec, "kv": [[k, cval(gen_value(rng))] for k in rng.sample(KEYS[sec] + ["custom_opt"], rng.randint(1, 3))]})
+                elif c == "read":
+                    user = [[s2, k, cval(gen_value(rng))] for s2 in SECTIONS for k in KEYS[s2] if rng.random() < 0.25]
+                    ops.append({"o": "read", "user": user, "fill": rng.random() < 0.6})
+                else:
+                    ops.append({"o": "get_default", "sec": sec, "opt": rng.choice(KEYS[sec])})
+            self.count("parameter-state-history")
+            yield {"t": "cfghist", "ops": ops}
         for k in range(6 if self.tier == "quick" else 30):
             self.count("file-vs-direct")
             yield {"t": "direct", "seed": rng.randrange(10 ** 6)}
@@ -110,7 +126,40 @@ class C20(vlib.Check):
                 os.remove(path)
         return secs, confgen, fprint
 
+    def _cfghist(self, case):
+        from e3fp.config import params as P
+        P.default_params = P.read_params(fill_defaults=True)        # every history starts from the packaged defaults
+        out = []
+        for k, op in enumerate(case["ops"]):
+            if op["o"] == "derive":
+                P.update_params({a: uncv(b) for a, b in op["kv"]}, params=P.default_params, section_name=op["sec"])
+                out.append(None)
+            elif op["o"] == "read":
+                cp = configparser.ConfigParser()
+                for sec in SECTIONS:
+                    d = {o2: uncv(v) for s2, o2, v in op["user"] if s2 == sec}
+                    if d:
+                        P.update_params(d, cp, section_name=sec)
+                path = os.path.join(self.tmp(), "h%d_%d.cfg" % (id(case) % 99999, k))
+                try:
+                    P.write_params(cp, path)
+                    secs = P.params_to_sections_dict(P.read_params(path, fill_defaults=op["fill"]), auto=True)
+                finally:
+                    if os.path.exists(path):
+                        os.remove(path)
+                out.append(sorted([s2, o2, cval(v)] for s2, d in secs.items() for o2, v in d.items()))
+            else:
+                v = P.get_value(P.default_params, op["sec"], op["opt"], auto=True, fallback="<fallback>")
+                out.append(cval(v))
+        P.default_params = P.read_params(fill_defaults=True)
+        return out
+
     def impl(self, case):
+        if case["t"] == "cfghist":
+            try:
+                return {"ok": self._cfghist(case)}
+            except Exception as e:  # noqa: BLE001
+                return {"err": type(e).__name__}
         if case["t"] in ("literal-string", "ini-boolean", "nonfinite-float"):
             return {"ok": "see prop"}
         if case["t"] == "roundtrip":
@@ -122,6 +171,8 @@ class C20(vlib.Check):
         return {"ok": "see prop"}
 
     def model_ops(self, case):
+        if case["t"] == "cfghist":
+            return [{"op": "cfg.hist", "ops": case["ops"]}]
         if case["t"] == "roundtrip":
             vals = []
             for sec in SECTIONS:
@@ -131,6 +182,11 @@ class C20(vlib.Check):
         return [{"op": "fpr.hash", "words": []}]
 
     def model_answer(self, case, answers):
+        if case["t"] == "cfghist":
+            a = answers[0]
+            if "ok" not in a:
+                return a
+            return {"ok": [sorted(x) if isinstance(x, list) else x for x in a["ok"]]}
         if case["t"] != "roundtrip":
             return {"ok": "see prop"}
         from e3fp.config import params as P
@@ -149,6 +205,22 @@ class C20(vlib.Check):
 
     # ------------------------------------------------------------------ property
     def prop(self, case):
+        if case["t"] == "cfghist":
+            # the fallback clause evaluated directly: every read with fill_defaults gives, for each option the user file lacks, the
+            # value an independent parse of defaults.cfg gives - wherever in the history the read stands
+            got = self._cfghist(case)
+            d = packaged_defaults()
+            for op, ans in zip(case["ops"], got):
+                if op["o"] != "read" or not op["fill"]:
+                    continue
+                have = {(s2, o2): v for s2, o2, v in ans}
+                given = {(s2, o2.lower()) for s2, o2, _ in op["user"]}
+                for sec in SECTIONS:
+                    for k, v in d.get(sec, {}).items():
+                        if (sec, k) not in given and have.get((sec, k)) != cval(v):
+                            return {"key": "fallback-missing:after-history", "what": "%s.%s absent from the user file reads %r, the packaged default is %r (history: %s)" % (
+                                sec, k, have.get((sec, k)), v, [o["o"] for o in case["ops"]])}
+            return None
         if case["t"] == "coherence":
             from harness import extract
             rows = extract.live_default_rows(vlib.REPO)
@@ -313,6 +385,11 @@ def untag(t):
     if name == "float":
         return float(r)
     return ast.literal_eval(r)
+
+
+def uncv(j):
+    """model value -> Python value"""
+    return untag(uncval(j))
 
 
 def cval(v):
